@@ -127,6 +127,104 @@ def run_case(case):
     return out
 
 
+def rebuild_topology(top, skip_bond=None):
+    """a new Topology with the same chains/residues/atoms and all bonds but one, through the public API only"""
+    new = md.Topology()
+    amap = {}
+    for ch in top.chains:
+        nch = new.add_chain()
+        for r in ch.residues:
+            nr = new.add_residue(r.name, nch, r.resSeq)
+            for a in r.atoms:
+                amap[a.index] = new.add_atom(a.name, a.element, nr)
+    for k, (a, b) in enumerate(top.bonds):
+        if k != skip_bond:
+            new.add_bond(amap[a.index], amap[b.index])
+    return new
+
+
+def reimage_step(t, op):
+    """one re-imaging call on the trajectory as it is now; returns (step record, trajectory to continue with)"""
+    n = t.n_atoms
+    top = t.topology
+    st = {"op": op["op"], "inplace": bool(op["inplace"]), "make_whole": bool(op.get("make_whole", True)), "n_atoms": n,
+          "bonds_now": [[a.index, b.index] for a, b in top.bonds],
+          "before": t.xyz[0].astype(np.float64).tolist()}
+    before = {"xyz": t.xyz.copy(), "ul": t.unitcell_lengths.copy(), "ua": t.unitcell_angles.copy(), "time": t.time.copy()}
+    box, K = exact_box(np.asarray(t.unitcell_vectors, dtype=np.float32)[0])
+    pairs = np.array(list(itertools.combinations(range(n), 2)), dtype=int).reshape(-1, 2)
+    d_before = md.compute_distances(t, pairs, periodic=True) if len(pairs) else None
+    mols = [sorted(a.index for a in mol) for mol in top.find_molecules()]
+    st["molecules"] = mols
+    kw = {"inplace": st["inplace"]}
+    if op["op"] == "whole":
+        res = t.make_molecules_whole(**kw)
+    else:
+        order = sorted(range(len(mols)), key=lambda m: (-len(mols[m]), mols[m][0]))
+        st["anchors_used"] = [mols[order[0]]]
+        st["others_used"] = [mols[m] for m in order[1:]]
+        kw["anchor_molecules"] = [[top.atom(a) for a in m] for m in st["anchors_used"]]
+        kw["other_molecules"] = [[top.atom(a) for a in m] for m in st["others_used"]]
+        kw["make_whole"] = st["make_whole"]
+        res = t.image_molecules(**kw)
+    st["returned_is_self"] = res is t
+    st["orig_xyz_same"] = bool(np.array_equal(t.xyz.view(np.uint32), before["xyz"].view(np.uint32)))
+    st["orig_cell_same"] = bool(np.array_equal(t.unitcell_lengths, before["ul"]) and np.array_equal(t.unitcell_angles, before["ua"]))
+    st["orig_time_same"] = bool(np.array_equal(t.time, before["time"]))
+    st["res_cell_same"] = bool(np.array_equal(res.unitcell_lengths, before["ul"]) and np.array_equal(res.unitcell_angles, before["ua"]))
+    st["res_time_same"] = bool(np.array_equal(res.time, before["time"]))
+    st["shares_memory"] = bool(np.shares_memory(res.xyz, t.xyz))
+    fr = {"box": box, "K": K, "new": res.xyz[0].astype(np.float64).tolist()}
+    if d_before is not None:
+        fr["dist_change"] = float(np.max(np.abs(md.compute_distances(res, pairs, periodic=True)[0] - d_before[0])))
+    bonds = np.array(st["bonds_now"], dtype=int).reshape(-1, 2)
+    if len(bonds):
+        dp = md.compute_distances(res, bonds, periodic=False)[0]
+        dm = md.compute_distances(res, bonds, periodic=True)[0]
+        k = int(np.argmax(dp - dm))
+        fr["bond_plain_minus_mic"] = float(dp[k] - dm[k])
+        fr["worst_bond"] = bonds[k].tolist()
+    st["frames"] = [fr]
+    return st, (res if (op.get("adopt") or st["inplace"]) else t)
+
+
+def run_history(case):
+    """a sequence of re-imaging calls and topology/trajectory edits on ONE trajectory object"""
+    out = {"err": None, "steps": []}
+    try:
+        t, atoms = build(case)
+        for op in case["ops"]:
+            kind = op["op"]
+            if kind in ("whole", "image"):
+                st, t = reimage_step(t, op)
+                out["steps"].append(st)
+            elif kind == "add_bond":
+                t.topology.add_bond(t.topology.atom(op["bond"][0]), t.topology.atom(op["bond"][1]))
+            elif kind == "del_bond":
+                t.topology = rebuild_topology(t.topology, skip_bond=op["k"])
+            elif kind == "copy_top":
+                t.topology = t.topology.copy()
+            elif kind == "atom_slice":
+                r = t.atom_slice(np.array(op["keep"], dtype=int), inplace=bool(op.get("inplace", False)))
+                t = t if op.get("inplace", False) else r
+            elif kind == "stack":
+                top2 = md.Topology()
+                ch = top2.add_chain()
+                a2 = [top2.add_atom("X%d" % k, md.element.carbon, top2.add_residue("S", ch)) for k in range(len(op["xyz"]))]
+                for a, b in op["bonds"]:
+                    top2.add_bond(a2[a], a2[b])
+                t2 = md.Trajectory((np.array([op["xyz"]], dtype=np.float64) / G).astype(np.float32), top2, time=t.time.copy())
+                t2.unitcell_lengths = t.unitcell_lengths.copy()
+                t2.unitcell_angles = t.unitcell_angles.copy()
+                t = t.stack(t2)
+            else:
+                raise KeyError(kind)
+    except Exception as e:  # noqa: BLE001
+        out["err"] = type(e).__name__
+        out["msg"] = str(e)[:300]
+    return out
+
+
 def main():
     import resource
     try:  # a runaway allocation inside a kernel must fail fast, not exhaust the machine
@@ -134,7 +232,7 @@ def main():
     except (ValueError, OSError):
         pass
     payload = json.load(sys.stdin)
-    print(json.dumps({"out": [run_case(c) for c in payload["cases"]]}))
+    print(json.dumps({"out": [run_history(c) if c.get("ops") is not None else run_case(c) for c in payload["cases"]]}))
 
 
 if __name__ == "__main__":
